@@ -168,3 +168,9 @@ Proof.
       split; [apply in_or_app; right; exact Hs|].
       exists k, u. apply in_or_app. right. exact Hin.
 Qed.
+
+Lemma generated_tables :
+  gen_auth_server_types = [5; 50; 61] /\ gen_auth_gss_types = [5; 50; 61; 66] /\
+  gen_auth_results = map res_code [RSuccess; RPartial; RFailed] /\
+  wire OSuccess = Ok [52].
+Proof. vm_compute. repeat split. Qed.
